@@ -406,3 +406,6 @@ def run(report, repo):
   report.guard(r5_thread_proc, report, repo)
   from sa.rules import c01  # pylint: disable=g-import-not-at-top
   report.guard(c01.r7_last_record, report, repo, rule='C03-R6')
+  from sa.rules import extra4  # pylint: disable=g-import-not-at-top
+  report.guard(extra4.stop_wait_is_constant, report, repo, 'C03-R9')
+  report.guard(c01.r3_from_outcome, report, repo, rule='C03-R10')
